@@ -15,6 +15,7 @@ EXTENDS Naturals, Sequences, FiniteSets, TLC
 CONSTANTS NNodes,     \* number of nodes of the base document
           MaxMut,     \* length of mutation sequences explored exhaustively
           PairStride, \* second mutations only at nodes n with n % PairStride = Seed % PairStride
+          LexStride,  \* lexical operators only at nodes n with n % LexStride = Seed % LexStride (a seeded slice of the nodes)
           Seed
 
 TypeOps == {"to_null", "to_bool", "to_num", "to_str", "to_arr", "to_obj", "to_empty_obj", "to_empty_str",
@@ -35,7 +36,64 @@ SchemaOps == {"schema_bad_pattern_example", "schema_type_empty_list", "schema_ty
               "schema_additional_props_string", "schema_required_unknown_and_dup", "schema_allof_empty", "schema_oneof_null_member",
               \* a component schema that is a composition of itself, with a default / example to be checked against it
               "schema_self_allof_default", "schema_self_anyof_example", "schema_self_not_default"}
-Ops == TypeOps \cup StructOps \cup RefOps \cup SchemaOps
+(* Lexical operators: the other half of "all byte strings".  The operators above mutate the JSON TREE of the document and   *)
+(* render it canonically; these write the same near-valid document with the features of the two CONCRETE SYNTAXES that no   *)
+(* tree mutation produces (the loader reads JSON first and falls back on YAML, so JSON-like text that is not JSON is YAML    *)
+(* input).  A value operator replaces the rendering of the node by a raw fragment -- YAML anchors / aliases (one alias, an    *)
+(* alias to an enclosing node, an undefined alias, the bounded "billion laughs" fan-out), merge keys (of a map, a list, a    *)
+(* scalar, twice), explicit tags (core, unknown, of the wrong kind), the implicit scalar types of YAML 1.1 / 1.2 (octal,     *)
+(* hex, binary, sexagesimal, .inf, .nan, yes, ~, timestamps, integers at and beyond the 64-bit limits), quoting and escape    *)
+(* forms; JSON number / string forms at the edge (NUL and lone-surrogate escapes, -0, huge exponents) and just beyond it      *)
+(* (leading zero, hex, trailing comma, single quotes, unquoted keys, comments, NaN, Infinity); invalid and unusual UTF-8.     *)
+(* A key operator adds an entry with a raw key next to the node (non-string YAML keys: int, bool, null, float, sequence, map, *)
+(* timestamp, binary, alias, merge; empty / NUL / invalid UTF-8 keys; "$ref" and "__origin__" as stray keys).  A document      *)
+(* operator rewrites the whole text (byte-order mark, UTF-16, CRLF, trailing garbage, the document twice, NUL padding, YAML   *)
+(* directives / several documents / a huge comment) or blows one node up (64 KiB key, 256 KiB string, an exact duplicate of a  *)
+(* key, 5 000- / 20 000-deep YAML flow nesting, 5 000-deep block nesting, 1 000 aliases: sizes that a loaded machine still   *)
+(* gets through well inside the watchdog -- slowness is not a hang).  The bytes behind each name are                          *)
+(* a table of the realiser (harness/c20lex.go).  yaml_* operators are rendered as YAML, json_* as JSON, the others as both.   *)
+LexValueOps == {"yaml_anchor_alias", "yaml_alias_self", "yaml_alias_self_map", "yaml_alias_undefined",
+                "yaml_alias_fanout", "yaml_merge_key", "yaml_merge_list", "yaml_merge_scalar", "yaml_merge_override",
+                "yaml_tag_str", "yaml_tag_binary", "yaml_tag_binary_bad", "yaml_tag_int_word", "yaml_tag_float_huge",
+                "yaml_tag_unknown", "yaml_tag_map_on_scalar", "yaml_tag_seq_on_map", "yaml_tag_null_word",
+                "yaml_tag_timestamp", "yaml_tag_set", "yaml_timestamp", "yaml_octal", "yaml_octal_old", "yaml_hex",
+                "yaml_binary_int", "yaml_inf", "yaml_neg_inf", "yaml_nan", "yaml_yes", "yaml_tilde",
+                "yaml_underscore_num", "yaml_sexagesimal", "yaml_big_int", "yaml_uint64_max", "yaml_int64_min",
+                "yaml_plus_num", "yaml_exp_huge", "yaml_quoted_escapes", "yaml_single_quoted", "yaml_flow_unclosed",
+                "yaml_empty_flow_entry", "yaml_question_key_value", "json_nul_escape", "json_lone_surrogate",
+                "json_swapped_surrogates", "json_neg_zero", "json_exp_huge", "json_exp_tiny", "json_long_fraction",
+                "json_leading_zero", "json_hex", "json_trailing_comma", "json_trailing_comma_obj",
+                "json_single_quotes", "json_unquoted_key", "json_comment", "json_nan", "json_infinity", "json_plus",
+                "json_bare_dot", "json_control_in_string", "invalid_utf8_value", "utf8_overlong",
+                "utf8_surrogate_bytes", "utf8_noncharacter", "utf8_bom_inside"}
+LexKeyOps == {"yaml_key_int", "yaml_key_bool", "yaml_key_null", "yaml_key_float", "yaml_key_seq", "yaml_key_map",
+              "yaml_key_timestamp", "yaml_key_binary", "yaml_key_alias", "yaml_key_merge", "key_empty", "key_nul",
+              "key_invalid_utf8", "key_ref", "key_origin", "key_dot_slash"}
+LexDocOps == {"long_key", "long_string", "dup_key_same", "yaml_nest_deep_flow", "yaml_nest_deep_block",
+              "yaml_many_aliases", "doc_bom", "doc_utf16le", "doc_utf16be", "doc_crlf", "doc_trailing_garbage",
+              "doc_twice", "doc_nul_padding", "yaml_multi_doc", "yaml_doc_end_garbage", "yaml_directive",
+              "yaml_directive_bad", "yaml_tag_directive", "yaml_leading_comment"}
+LexOps == LexValueOps \cup LexKeyOps \cup LexDocOps
+YamlOnly(op) == op \in {"yaml_anchor_alias", "yaml_alias_self", "yaml_alias_self_map", "yaml_alias_undefined",
+                      "yaml_alias_fanout", "yaml_merge_key", "yaml_merge_list", "yaml_merge_scalar",
+                      "yaml_merge_override", "yaml_tag_str", "yaml_tag_binary", "yaml_tag_binary_bad",
+                      "yaml_tag_int_word", "yaml_tag_float_huge", "yaml_tag_unknown", "yaml_tag_map_on_scalar",
+                      "yaml_tag_seq_on_map", "yaml_tag_null_word", "yaml_tag_timestamp", "yaml_tag_set",
+                      "yaml_timestamp", "yaml_octal", "yaml_octal_old", "yaml_hex", "yaml_binary_int", "yaml_inf",
+                      "yaml_neg_inf", "yaml_nan", "yaml_yes", "yaml_tilde", "yaml_underscore_num",
+                      "yaml_sexagesimal", "yaml_big_int", "yaml_uint64_max", "yaml_int64_min", "yaml_plus_num",
+                      "yaml_exp_huge", "yaml_quoted_escapes", "yaml_single_quoted", "yaml_flow_unclosed",
+                      "yaml_empty_flow_entry", "yaml_question_key_value", "yaml_key_int", "yaml_key_bool",
+                      "yaml_key_null", "yaml_key_float", "yaml_key_seq", "yaml_key_map", "yaml_key_timestamp",
+                      "yaml_key_binary", "yaml_key_alias", "yaml_key_merge", "yaml_nest_deep_flow",
+                      "yaml_nest_deep_block", "yaml_many_aliases", "yaml_multi_doc", "yaml_doc_end_garbage",
+                      "yaml_directive", "yaml_directive_bad", "yaml_tag_directive", "yaml_leading_comment"}
+JsonOnly(op) == op \in {"json_nul_escape", "json_lone_surrogate", "json_swapped_surrogates", "json_neg_zero",
+                      "json_exp_huge", "json_exp_tiny", "json_long_fraction", "json_leading_zero", "json_hex",
+                      "json_trailing_comma", "json_trailing_comma_obj", "json_single_quotes", "json_unquoted_key",
+                      "json_comment", "json_nan", "json_infinity", "json_plus", "json_bare_dot",
+                      "json_control_in_string"}
+Ops == TypeOps \cup StructOps \cup RefOps \cup SchemaOps \cup LexOps
 
 Entries == {"data", "datapath", "file"}
 
@@ -69,10 +127,13 @@ Mutate(op, n) ==
                            /\ entry = "data" /\ allow /\ ~yaml))      \* JSON through LoadFromData only
    /\ (base # FullBase => (muts = <<>> /\ n <= SparseNodes /\ op \in SparseOps))
    /\ base \notin BlobBases                                          \* a blob has no nodes to mutate
+   /\ (op \in LexOps => n % LexStride = Seed % LexStride)
+   /\ (Len(muts) >= 1 => (op \notin LexOps /\ muts[1].op \notin LexOps))   \* lexical operators singly (the pair level is tree x tree)
    /\ muts' = Append(muts, [op |-> op, node |-> n])
    /\ UNCHANGED <<entry, allow, yaml, base>>
 
-Next == \E op \in Ops, n \in 1..NNodes : Mutate(op, n)
+(* (the bound is tested before the operators are enumerated: a finished sequence costs TLC one comparison, not |Ops| x NNodes) *)
+Next == Len(muts) < MaxMut /\ base \notin BlobBases /\ \E op \in Ops, n \in 1..NNodes : Mutate(op, n)
 Spec == Init /\ [][Next]_vars
 
 (* every case is run through LoadFromData as JSON with external refs allowed; the other entry  *)
@@ -82,11 +143,20 @@ Emitted == /\ (base = FullBase => muts # <<>>)
            /\ ((base # FullBase /\ base \notin BlobBases) => (allow /\ ~yaml /\ entry \in {"file", "datapath"}))      \* the unmutated sparse document is a case
            /\ (base \in BlobBases => ~yaml)                               \* a blob is bytes: every entry point, both switch settings
            /\ ((yaml \/ (~allow /\ base \notin BlobBases)) => entry = "data")
-           /\ ((base = FullBase /\ (yaml \/ ~allow \/ entry # "data")) => \E i \in DOMAIN muts : muts[i].op \in RefOps \cup {"to_null", "delete", "truncate_here"})
+           /\ ((base = FullBase /\ (yaml \/ ~allow \/ entry # "data")) => \E i \in DOMAIN muts : muts[i].op \in RefOps \cup {"to_null", "delete", "truncate_here"} \cup LexOps)
+           \* a lexical operator: LoadFromData with the switch on, in the rendering(s) the operator is about
+           /\ \A i \in DOMAIN muts : muts[i].op \in LexOps =>
+                  (entry = "data" /\ allow /\ (YamlOnly(muts[i].op) => yaml) /\ (JsonOnly(muts[i].op) => ~yaml))
 
 -----------------------------------------------------------------------------
 (* L1: outcome alphabet and sequencing of one run                                          *)
 Stages == <<"load", "validate", "marshal_json", "marshal_yaml", "internalize", "validate_after">>
+(* reference-graph cases (RefGraph.tla) are pushed through every further entry point that takes a loaded document:          *)
+(* T.Validate with every option switched on / off, the validator and the serialiser of every part of the document on its      *)
+(* own (components, each component, paths, each path item and operation, the media types and encodings of bodies and          *)
+(* headers), Loader.ResolveRefsIn on the loaded document, and -- a history of two -- serialising and internalising the        *)
+(* internalised document again.                                                                                               *)
+GraphStages == <<"validate_enabled", "validate_disabled", "validate_parts", "marshal_parts", "resolve_again", "marshal_after", "internalize_again">>
 Normal == {"ok", "error"}
 Abnormal == {"panic", "hang", "crash"}
 
